@@ -48,6 +48,10 @@ SyntaxKinds == {"Syntax.InvalidBangMarkup", "Syntax.UnclosedPIOrXmlDecl", "Synta
 IsIllFormed(ev) == ev.k = "Err" /\ ev.e \in IllFormedKinds
 IsSyntax(ev)    == ev.k = "Err" /\ ev.e \in SyntaxKinds
 
+\* Config helpers (src/reader/mod.rs Config::trim_text / enable_all_checks): documented as shorthands for exactly these switches
+TrimTextHelper(cfg, b) == [cfg EXCEPT !.tts = b, !.tte = b]
+EnableAllChecksHelper(cfg, b) == [cfg EXCEPT !.cc = b, !.cen = b]
+
 BufferPosition(st) == IF st.ps = "InsideMarkup" THEN st.off - 1 ELSE st.off
 
 \* UTF-8 BOM removal (feature `encoding` off: remove_utf8_bom; on:
